@@ -8,7 +8,8 @@ every partition and of compute() — is compared with Model/GeoFrame.v evaluated
 Coq kernel on the same sequence.  The propagation class of every operation is a fixed
 table in the model, so an operation that changes class is a disagreement.  The *uses*
 (cx, build_sindex, sjoin, Hilbert packing, partition bounds) are checked on frames
-whose geometry columns give different answers.
+whose geometry columns give different answers.  Plain columns come in every storage class
+(c20_util.flavours) and Dask frames also WIDE (more than 32 partitions, really shuffled).
 """
 import itertools
 import os
@@ -286,9 +287,9 @@ def flavour_sequences(f):
 
 def flavour_dask_sequences(f):
     sub = lambda *names: {'op': 'DSubset', 'names': list(names)}          # noqa: E731
-    return [[sub('v', f), {'op': 'DMapIdentity'}],
+    return [[{'op': 'DMapIdentity'}, sub('v', f), {'op': 'DMapIdentity'}],
             [{'op': 'DDrop', 'names': ['a']}, {'op': 'DDrop', 'names': ['b']}],
-            [sub(f, 'b'), {'op': 'DConcatSelf'}, {'op': 'DDrop', 'names': ['b']}],
+            [{'op': 'DConcatSelf'}, sub(f, 'b'), {'op': 'DDrop', 'names': ['b']}],
             [{'op': 'DSortValues', 'auto': True}, sub(f, 'v')],
             [{'op': 'DSetGeometry', 'name': f}]]
 
@@ -494,31 +495,37 @@ def check_uses_dask(rep, ddf, frames, meta):
     if whole_b.shape != want_b.shape or not bool(np.all((whole_b == want_b) | (np.isnan(whole_b) & np.isnan(want_b)))):
         rep.count('dask:projection-changes-partitioning')
         return
-    # cx: rows by the active column
+    # cx: rows by the active column.  A small box, and on wide frames also a box over most of the
+    # region: it meets (almost) every partition - more partitions than any threshold on the way -
+    # and still selects different rows for every column (their rows are shifted cyclically)
     t0 = rng.randint(0, nrows - 2)
-    t1 = rng.randint(t0, min(nrows - 1, t0 + 2))
-    box = U.box_over(t0, t1)
-    try:
-        got = ddf.cx[box[0]:box[1], box[2]:box[3]].compute(scheduler='synchronous')
-    except KeyError as e:
-        if U.dask_internal_keyerror(e) and meta.get('npartitions', 0) > 32 and U.dask_task_shuffle_subset_bug() \
-                and any(o.get('op') in SHUFFLES for o in meta.get('dask_ops', [])):
-            # see run_dask_steps: Dask's KeyError on a subset of the partitions of a wide task shuffle
-            rep.count('dask:wide-task-shuffle-subset-keyerror-skipped')
-            return
-        raise
-    want_mask = U.rows_in_box(whole, name, box)
-    rep.evaluations += 1
+    queries = [(t0, rng.randint(t0, min(nrows - 1, t0 + 2)))]
+    if ddf.npartitions > U.WIDE_ABOVE and nrows > 8:
+        a0 = rng.randint(1, max(1, nrows // 8))
+        queries.append((a0, nrows - 1 - rng.randint(1, max(1, nrows // 8))))
     gcols = meta['geoms']
-    if any((U.rows_in_box(whole, g, box) != want_mask).any() for g in gcols if g != name):
-        rep.nontrivial(('dask-cx', name, t0, t1, len(frames), len(rep.nontrivial_keys) % 97))
     key = 'v' if 'v' in whole.columns else None
-    got_rows = sorted(got[key].tolist()) if key else len(got)
-    want_rows = sorted(whole[key][want_mask].tolist()) if key else int(want_mask.sum())
-    if got_rows != want_rows:
-        rep.violation('uses:dask-cx', f'DaskGeoDataFrame.cx did not select by the active column {name!r}',
-                      {**meta, 'box': list(box), 'got_rows': got_rows, 'want_rows': want_rows})
-        return
+    for t0, t1 in queries:
+        box = U.box_over(t0, t1)
+        try:
+            got = ddf.cx[box[0]:box[1], box[2]:box[3]].compute(scheduler='synchronous')
+        except KeyError as e:
+            if U.dask_internal_keyerror(e) and meta.get('npartitions', 0) > 32 and U.dask_task_shuffle_subset_bug() \
+                    and any(o.get('op') in SHUFFLES for o in meta.get('dask_ops', [])):
+                # see run_dask_steps: Dask's KeyError on a subset of the partitions of a wide task shuffle
+                rep.count('dask:wide-task-shuffle-subset-keyerror-skipped')
+                return
+            raise
+        want_mask = U.rows_in_box(whole, name, box)
+        rep.evaluations += 1
+        if any((U.rows_in_box(whole, g, box) != want_mask).any() for g in gcols if g != name):
+            rep.nontrivial(('dask-cx', name, t0, t1, len(frames), len(rep.nontrivial_keys) % 97))
+        got_rows = sorted(got[key].tolist()) if key else len(got)
+        want_rows = sorted(whole[key][want_mask].tolist()) if key else int(want_mask.sum())
+        if got_rows != want_rows:
+            rep.violation('uses:dask-cx', f'DaskGeoDataFrame.cx did not select by the active column {name!r}',
+                          {**meta, 'box': list(box), 'got_rows': got_rows, 'want_rows': want_rows})
+            return
     # Hilbert packing key
     if key and len(whole) >= 4 and whole[key].is_unique:
         try:
@@ -758,6 +765,9 @@ DOP_KINDS = ['DSubset', 'DMask', 'DLocAll', 'DAssign', 'DDrop', 'DRename', 'DRes
              'DSetIndex', 'DRepartition', 'DPackPartitions', 'DCx', 'DCxPartitions', 'DBuildSindex',
              'DSetGeometry']
 SHUFFLES = ('DSortValues', 'DSetIndex', 'DRepartition', 'DPackPartitions')
+# partition-to-partition operations: the result has the partitions of the frame they are applied to
+SAME_PARTITIONS = ('DSubset', 'DMask', 'DLocAll', 'DAssign', 'DDrop', 'DRename', 'DResetIndex', 'DCopy',
+                   'DPersist', 'DPickle', 'DMapIdentity', 'DBuildSindex', 'DSetGeometry')
 
 
 def gen_dop(rng, kind, ddf, frames, nshuffles, nrows=None):
@@ -839,6 +849,8 @@ def gen_dop(rng, kind, ddf, frames, nshuffles, nrows=None):
     elif kind in ('DCx', 'DCxPartitions'):
         if not parts_ok:
             return None
+        if valid and not all(hasattr(f[act], 'total_bounds') for f in frames):
+            return None          # partitions that are not geo frames: reported by the state comparison
         t0 = rng.randint(0, nrows - 1)
         t1 = rng.randint(t0, nrows - 1) if rng.random() < 0.5 else min(nrows - 1, t0 + rng.randint(0, 3))
         op['box'] = list(U.box_over(t0, t1))
@@ -899,6 +911,15 @@ def run_dask_steps(ddf, dops_spec, rep, rng, nsteps, history, layout_meta, nrows
             done.pop()
             rep.count('dask:degenerate-repartition-skipped')
             break
+        if op['op'] in SAME_PARTITIONS and ddf.npartitions != parent.npartitions:
+            # Dask (2026.8) mis-reports npartitions of an operation applied on top of
+            # .partitions[sel].repartition(npartitions=len(sel)) - with plain pandas frames too:
+            # dd.from_pandas(pdf, 4).partitions[[0, 3]].repartition(npartitions=2).rename(columns=..)
+            # .npartitions == 4, the partitions beyond the second raise IndexError inside dask.  An
+            # operation of this list maps partition to partition; the count is Dask's business
+            done.pop()
+            rep.count('dask:npartitions-misreported-skipped')
+            break
         widest = max(widest, parent.npartitions)
         if not U.is_bad(o) and nsh > 0 and widest > 32 and (o[2] is None or any(p_ is None for p_ in o[1])) \
                 and U.LAST_ERRORS and all(t == 'KeyError' and '/dask/' in fn for _w, t, fn in U.LAST_ERRORS) \
@@ -944,6 +965,31 @@ def wrap_dask(first, res):
 
 # --------------------------------------------------------------------------
 def run(rep):
+    """_run; when an operation the run does not expect to raise raises (a constructor, a write, a
+    use), the state comparisons collected so far are still reported (they usually name the
+    operation), then the exception itself"""
+    import traceback
+    pending = {}
+    try:
+        _run(rep, pending)
+    except C.ModelUnavailable:
+        raise
+    except Exception as e:  # noqa: BLE001
+        tb = traceback.format_exc()
+        for args in list(pending.values()):
+            try:
+                report_state_mismatches(rep, *args)
+            except C.ModelUnavailable:
+                raise
+            except Exception:  # noqa: BLE001
+                pass
+        where = [f'{os.path.basename(f.filename)}:{f.lineno} {f.name}' for f in traceback.extract_tb(e.__traceback__)]
+        rep.violation('run-raised:' + type(e).__name__,
+                      f'an operation of the run raised {type(e).__name__}: {str(e)[:200]}',
+                      {'kind': 'raised', 'where': where[-6:], 'traceback': tb[-2500:]})
+
+
+def _run(rep, pending):
     import dask
     import dask.dataframe as dd
     import pandas as pd
@@ -968,7 +1014,12 @@ def run(rep):
                 'packing / read_parquet_dask(geometry=g, bounds=box) partition pruning compared with the answer computed from the active column alone; a case is '
                 'non-trivial when another geometry column would have given a different answer (uses) '
                 'or when the frame has >= 2 geometry columns and the active one is not the first '
-                '(state sequences)')
+                '(state sequences); (6) plain columns of every storage class (numpy blocks and pandas '
+                'extension arrays that are not geometries: str, category, nullable, tz-aware, period, '
+                'interval, sparse, arrow): per class a table of sequences dropping every geometry / keeping '
+                'the active one / set_geometry(<plain>) on pandas, Dask and re-read parquet; (7) wide Dask '
+                'frames (32, 33, 34..70 partitions; datasets of 11 and 33 pieces) really shuffled by '
+                'sort_values / set_index / pack_partitions, every partition observed in one pass')
     dask.config.set(scheduler='synchronous')
     import time
     marks = [('start', time.time())]
@@ -984,6 +1035,7 @@ def run(rep):
         return DEBUG_ONLY is None or section in DEBUG_ONLY
 
     p_cases, p_res, p_meta = [], [], []
+    pending['pandas'] = ('run_pandas', P_CASE, P_RES, p_cases, p_res, p_meta, 'pandas')
 
     def add_pandas(cols, ops_spec, target):
         res, done, last = run_pandas_seq(cols, ops_spec)
@@ -1098,7 +1150,7 @@ def run(rep):
             check_uses_pandas(rep, df, cols, done)
 
     mark('pandas-random')
-    report_state_mismatches(rep, 'run_pandas', P_CASE, P_RES, p_cases, p_res, p_meta, 'pandas')
+    report_state_mismatches(rep, *pending.pop('pandas'))
     mark('pandas-coq')
 
     # sjoin on the active columns of both frames
@@ -1122,6 +1174,7 @@ def run(rep):
     mark('sjoin')
     # (3) Dask sequences
     d_cases, d_res, d_meta = [], [], []
+    pending['dask'] = ('run_dask', D_CASE, D_RES, d_cases, d_res, d_meta, 'dask')
 
     def add_dask(cols, target, want, dops_spec=None, nsteps=None, nrows=None, uses=False, kinds=None,
                  sample=False):
@@ -1188,7 +1241,7 @@ def run(rep):
     # shuffle methods might be chosen; 10 / 11) and beyond; rows = partitions x {1, 2, 3}, the key 'v'
     # an unsorted permutation, so sort_values / set_index / pack_partitions really shuffle
     if quick:
-        wide_counts = [(33, 'full'), (32, 'short'), (rng.choice([11, 34, 40, 47, 64, 65, 70]), 'short')]
+        wide_counts = [(33, 'full'), (32, 'short'), (rng.choice([34, 40, 47, 64, 65, 70]), 'short')]
     else:
         wide_counts = [(k, 'full') for k in (10, 11, 31, 32, 33, 34, 40, 64, 65, 100)]
     shuffle_heavy = ['DSortValues', 'DSetIndex', 'DPackPartitions', 'DRepartition'] * 3 + DOP_KINDS
@@ -1201,29 +1254,32 @@ def run(rep):
                  [{'op': 'DSetIndex', 'auto': True}]]
         if how == 'full':
             specs += [[{'op': 'DPackPartitions', 'auto': True, 'want': rng.choice([2, None])}],
-                      [{'op': 'DSetGeometry', 'name': other}, {'op': 'DSortValues', 'auto': True}]]
+                      [{'op': 'DSetGeometry', 'name': other}, {'op': 'DSortValues', 'auto': True}],
+                      [{'op': 'DMapIdentity'}]]
             if not quick:
                 specs += [[{'op': 'DPackPartitions', 'auto': True, 'want': None}],
                           [{'op': 'DRepartition', 'auto': True}, {'op': 'DSetIndex', 'auto': True}]]
         for si, spec in enumerate(specs):
-            add_dask(cols, target, k, spec, nrows=nrows, uses=(si == 0 and (wi != 1 or not quick)))
+            add_dask(cols, target, k, spec, nrows=nrows,
+                     uses=((si == 0 and (wi != 1 or not quick)) or spec[0]['op'] == 'DMapIdentity'))
         for _ in range((1 if wi != 1 else 0) if quick else 3):
             add_dask(cols, target, k, None, rng.randint(1, 3), nrows=nrows, kinds=shuffle_heavy)
     rep.extra['dask_task_shuffle_subset_keyerror_on_plain_pandas'] = U.dask_task_shuffle_subset_bug()
     mark('dask-wide')
-    report_state_mismatches(rep, 'run_dask', D_CASE, D_RES, d_cases, d_res, d_meta, 'dask')
+    report_state_mismatches(rep, *pending.pop('dask'))
     mark('dask-coq')
 
     # (4) parquet: read_parquet_dask(geometry=<each column>)
     q_cases, q_res, q_meta = [], [], []
+    pending['parquet'] = ('run_read_parquet_dask', Q_CASE, D_RES, q_cases, q_res, q_meta, 'parquet')
     tmp = tempfile.mkdtemp(prefix='sp_c20_')
     try:
         nds = (4 if quick else 40) if on('parquet') else 0
         # after the ordinary datasets: WIDE ones (11 / 33+ pieces, re-read and then really shuffled)
         # and one per plain-column storage parquet can carry (re-read, then every geometry dropped)
         pfl = U.flavours('parquet')
-        extra = [('wide', k) for k in ([33] if quick else [11, 33, 40])] + \
-                [('storage', f) for f in (rng.sample(pfl, 2) if quick else pfl)]
+        extra = [('wide', k) for k in ([11, 33] if quick else [10, 11, 33, 40])] + \
+                [('storage', f) for f in (rng.sample([x for x in pfl if U.is_extension_flavour(x)], 2) if quick else pfl)]
         for s in range(nds + (len(extra) if on('parquet') or on('wide') else 0)):
             special = extra[s - nds] if s >= nds else None
             nrows = U.NROWS
@@ -1320,7 +1376,7 @@ def run(rep):
     finally:
         shutil.rmtree(tmp, ignore_errors=True)
     mark('parquet')
-    report_state_mismatches(rep, 'run_read_parquet_dask', Q_CASE, D_RES, q_cases, q_res, q_meta, 'parquet')
+    report_state_mismatches(rep, *pending.pop('parquet'))
 
     corpus(rep)
     mark('parquet-coq+corpus')
@@ -1528,6 +1584,13 @@ def replay(rep, rp):
             return not r2.violations
         finally:
             shutil.rmtree(tmp, ignore_errors=True)
+    if kind == 'raised':
+        r2 = C.Report(rep.pid, rep.tier, rep.seed)
+        r2.tier_run = 'quick'
+        run(r2)
+        for v in r2.violations:
+            print('still:', v['signature'], v['what'])
+        return not r2.violations
     # uses / corpus violations: re-run the corpus and the uses checks of a fresh run
     r2 = C.Report(rep.pid, rep.tier, rep.seed)
     corpus(r2)
